@@ -25,6 +25,8 @@ def _cfg_sock(tier):
     for n in ([0, 1, 2, 3] if tier == 'quick' else [0, 1, 2, 3, 4]):
         for q in ([n + 2] if tier == 'quick' else [n + 2, n + 3]):
             out.append({'n': n, 'queries': q})
+            if n >= 2:
+                out.append({'n': n, 'queries': q, 'calm': 1})      # the second wind given is a zero-speed (calm) segment
     return out
 
 
@@ -39,12 +41,13 @@ def _drive(sock, x, state):
          must_reach=['check:segment_in_force', 'switched', 'beyond_last', 'two_boundaries_in_one_step'],
          bounds='n = 0..3 (quick) / 0..4 (thorough) winds with symbolic until-distances in [0, 1e5] ft in every input order incl. duplicates; '
                 'n+2 (n+3) queries at symbolic non-decreasing positions starting at x = 0 (as _integrate issues them)',
-         assumptions=['wind vectors are identified by concrete distinct speeds 1..n at direction 0 (the sock only copies the vector)'])
-def c12_sock(ctx, n, queries):
+         assumptions=['wind vectors are identified by concrete distinct speeds 1..n at direction 0 (the sock only copies the vector); one variant makes the second wind a calm (zero-speed) segment'])
+def c12_sock(ctx, n, queries, calm=None):
     p, tc = pybc(), _tc()
     U = p.Unit
     until = [ctx.real(f'until{i}', 0, 1e5) for i in range(n)]
-    winds = [p.Wind(U.FPS(float(i + 1)), U.Radian(0.0), U.Foot(until[i])) for i in range(n)]
+    speed = lambda i: 0.0 if i == calm else float(i + 1)
+    winds = [p.Wind(U.FPS(speed(i)), U.Radian(0.0), U.Foot(until[i])) for i in range(n)]
     shot = p.Shot(None, None, atmo=_atmo(p), winds=winds)
     got_sorted = shot.winds
     if n == 0:
@@ -57,7 +60,7 @@ def c12_sock(ctx, n, queries):
     sock = tc._WindSock(got_sorted)
     state = {'v': sock.current_vector()}
     # oracle segments: (until, speed) sorted by until (ties: any order - a zero-length segment never acts)
-    segs = sorted(((until[i], float(i + 1)) for i in range(n)), key=lambda s: s[0]) if n else []
+    segs = sorted(((until[i], speed(i)) for i in range(n)), key=lambda s: s[0]) if n else []
     xs = [0.0] + [ctx.real(f'x{k}', 0, 2e5) for k in range(1, queries)]
     for k in range(1, queries):
         ctx.assume(xs[k] >= xs[k - 1])
@@ -133,8 +136,8 @@ from harness import carriers  # noqa: E402
 def _cfg_fire(tier):
     out = []
     K = 12 if tier == 'quick' else 40
-    plan = [('C', 100.0, dict(relative_deg=2.0)), ('B', 60.0, dict())] if tier == 'quick' else \
-        [('C', 100.0, dict(relative_deg=2.0)), ('B', 60.0, dict()), ('A', 100.0, dict()), ('C', 100.0, dict(relative_deg=30.0)), ('A', 30.0, dict())]
+    plan = [('C', 100.0, dict(relative_deg=2.0)), ('B', 60.0, dict()), ('A', 100.0, dict(look_deg=25.0))] if tier == 'quick' else \
+        [('C', 100.0, dict(relative_deg=2.0)), ('B', 60.0, dict()), ('A', 100.0, dict(look_deg=25.0)), ('A', 100.0, dict()), ('C', 100.0, dict(relative_deg=30.0)), ('A', 30.0, dict(look_deg=-15.0))]
     for (c, step, kw) in plan:
         rmax = K * step / 2 * 0.9
         for n in ((2,) if tier == 'quick' else (2, 3)):
@@ -151,7 +154,7 @@ SEGS = [(10.0, 1.2), (6.0, -2.0), (14.0, 0.4)]       # (mph, direction from, rad
          cost=15, engine_opts={'div_check': False, 'nl_axioms_in_feasibility': False},
          must_reach=['check:order_of_input_does_not_matter', 'check:each_step_uses_the_segment_in_force', 'check:later_segments_do_not_change_earlier_rows',
                      'check:mirror_negates_windage_only', 'check:zero_speed_is_no_wind'],
-         bounds='carriers C (twist 0), B [thorough: + A, inclined C, finer A] with concrete wind vectors per segment and SYMBOLIC until-distances (n = 2; thorough 2..3) '
+         bounds='carriers C (twist 0), B, A with a 25 deg sight line [thorough: + level A, inclined C, finer downhill A] with concrete wind vectors per segment and SYMBOLIC until-distances (n = 2; thorough 2..3) '
                 'in any order: one cell per assignment of switch points to integration steps; horizon K <= 12 (quick) / 40 (thorough) steps',
          outside=['"head and tail winds change drop and time of flight in opposite senses" beyond one step: compared on three concrete carrier runs (test strength)'])
 def c12_fire(ctx, carrier, step_ft, kw, n, rmax, ulo, uhi):
